@@ -5,6 +5,7 @@ import (
 	"encoding/json"
 	"fmt"
 	"math/rand"
+	"strings"
 	"time"
 
 	"github.com/deepteams/webp"
@@ -110,10 +111,12 @@ func replayMux(t *muxTokens, h []muxCall) (out []byte, err error, panicked any) 
 	m := mux.NewMuxer()
 	optKinds := []*mux.FrameOptions{nil,
 		{Duration: 1},
-		{Duration: 100, OffsetX: 2, OffsetY: 2, BlendMode: mux.BlendNone, DisposeMode: mux.DisposeBackground},
+		{Duration: 70001, OffsetX: 2, OffsetY: 2, BlendMode: mux.BlendNone, DisposeMode: mux.DisposeBackground},
 		{Duration: 16777221, OffsetX: 3, OffsetY: 1, DisposeMode: mux.DisposeBackground},
 		{Duration: -5, BlendMode: mux.BlendNone},
-		{BlendMode: mux.BlendNone, DisposeMode: mux.DisposeBackground}}
+		{BlendMode: mux.BlendNone, DisposeMode: mux.DisposeBackground},
+		{Duration: 258, OffsetX: 131588, OffsetY: 2},
+		{Duration: 3, OffsetY: 197640, BlendMode: mux.BlendNone}}
 	ids := []mux.ChunkID{0, mux.FourCCICCP, mux.FourCCEXIF, mux.FourCCXMP}
 	for _, c := range h {
 		switch c.Op {
@@ -228,12 +231,17 @@ func checkC14(args []string) {
 	}
 	pending := map[string]pend{}
 	seen := map[string]bool{}
+	skipped := 0
 	for i, c := range cases {
 		hs := histString(c.Hist)
 		if seen[hs] {
 			continue
 		}
 		seen[hs] = true
+		if strings.HasPrefix(c.Expect.Reason, "skip:") {
+			skipped++
+			continue
+		}
 		out, err, pan := replayMux(toks, c.Hist)
 		if pan != nil {
 			run.Violate("panic", fmt.Sprintf("Muxer panicked: %v on %s", pan, hs), c)
@@ -279,6 +287,7 @@ func checkC14(args []string) {
 		run.Violate(muxSignature(p.c.Expect, why), fmt.Sprintf("history %s: %s (file %d bytes)", histString(p.c.Hist), why, len(p.out)), p.c)
 	}
 	run.Cov["histories"] = len(seen)
+	run.Cov["skipped_beyond_documented_caps"] = skipped
 	run.Cov["files_validated"] = len(files)
 	run.Finish()
 }
